@@ -4,7 +4,8 @@ import sys, os
 sys.path.insert(0, os.path.dirname(os.path.abspath(__file__)))
 import common
 from common import Check, run_jobs, TIER
-from lsx import driver
+from lsx import driver, models_zlib
+common.register_models('zlib_contract', models_zlib.install_contract)
 
 V2 = ['h_dec_beat_data', 'h_dec_quick_cues', 'h_dec_loops', 'h_dec_overview', 'h_dec_track_data']
 V1 = ['h_dec1_beat_data', 'h_dec1_high_res', 'h_dec1_loops', 'h_dec1_overview', 'h_dec1_quick_cues', 'h_dec1_track_data']
@@ -25,10 +26,21 @@ def main():
     for L in range(lmax + 1, 131 if TIER == 'quick' else 161):
         jobs.append(dict(harness='h_dec_v2.cpp', ll=ll2, entry='h_dec_beat_data', params={'len': L}, models=['zlib_identity'], known=ck.known, eng_opts=eng_opts))
         jobs.append(dict(harness='h_dec_v1.cpp', ll=ll1, entry='h_dec1_beat_data', params={'len': L}, models=['zlib_identity'], known=ck.known, eng_opts=eng_opts))
+    # the REAL zlib wrappers over the contract stub of inflate/deflate
+    llz = driver.compile_ir('h_zlib.cpp'); driver.load_module(llz)
+    ck.native_spec['h_zlib.cpp'] = {'extra_src': [], 'libs': ('-lz',)}
+    nmap = {'oob': 'h_zlib_native_window', 'nonterm': 'h_zlib_native_truncated', 'assert': 'h_zlib_native_window'}
+    for L in (range(0, 13) if TIER == 'quick' else list(range(0, 25)) + [16388, 16389, 16400]):
+        jobs.append(dict(harness='h_zlib.cpp', ll=llz, entry='h_zlib_uncompress', params={'len': L}, models=['zlib_contract'], known=ck.known, eng_opts=eng_opts,
+                         native_entry_for=nmap, allow_throw='none'))
+    for L in (range(0, 7) if TIER == 'quick' else list(range(0, 13)) + [16384, 16385, 16390]):
+        jobs.append(dict(harness='h_zlib.cpp', ll=llz, entry='h_zlib_compress', params={'len': L}, models=['zlib_contract'], known=ck.known, eng_opts=eng_opts,
+                         native_entry_for=nmap, allow_throw='std'))
     ck.add_results(run_jobs(jobs))
     ck.extra['bounds'] = {'payload_length': 'every length 0..%d (beat data: 0..%d), all bytes symbolic (embedded 64-bit counts and one-byte label lengths unconstrained)' % (lmax, 130 if TIER == 'quick' else 160),
                           'allocation': 'operator new(n): n > 16 MiB throws std::bad_alloc, otherwise succeeds',
-                          'per_path_instruction_cap': eng_opts['max_steps'], 'outside': 'payloads longer than the bound; libz itself (see zlib wrapper harness)'}
+                          'per_path_instruction_cap': eng_opts['max_steps'], 'zlib_wrappers': 'real zlib_uncompress/zlib_compress over a contract stub: inputs of the listed lengths, <= 8 inflate/deflate calls, <= 2 full output chunks',
+                          'outside': 'payloads longer than the bound; libz itself'}
     ck.assumptions = ['identity zlib framing for the codecs (zlib_compress(x) = BE32(len) ++ x); the real wrappers are checked separately against a contract stub of inflate/deflate',
                       'libstdc++ basic_string/vector code is the real code (IR), operator new/delete, __cxa_* and std exception constructors are modelled',
                       'assert() is compiled out (-DNDEBUG) as in the shipped RelWithDebInfo build']
